@@ -529,6 +529,7 @@ pub fn specs(tier: Tier) -> Vec<TrackerSpec> {
 }
 
 pub fn run(ctx: &mut Ctx) {
+    ctx.confirm_runs = 2;
     ctx.assume("replies are attributed by the unique transaction id written into every sent datagram; the fence (a connect from the same socket, answered by the same socket worker after the datagram before it) only bounds the wait");
     ctx.assume("trackers run in-process on leased loopback ports; no cleaning pass happens during a run (interval 100000 s); source port 0 needs a raw socket and is covered by sub-check raw-port-0 when the sandbox allows it");
     ctx.run_regress::<Case, _>("datagrams", prop);
